@@ -15,6 +15,18 @@ Definition re_alternation (re : string -> string -> bool) : Prop :=
   forall ms m, ms <> [] -> Forall valid_method ms ->
                re (join "|" ms) m = existsb (fun x => x =? m) ms.
 
+(* Envoy ignores a value matcher on an ABSENT header even when it is inverted, consul's Invert
+   means "the header does not have that value": the two agree on a request that carries every
+   header an inverted value matcher asks about. *)
+Definition is_value_matcher (h : hdr_perm) : bool :=
+  negb (h_exact h =? "") || negb (h_regex h =? "") || negb (h_prefix h =? "")
+  || negb (h_suffix h =? "") || negb (h_contains h =? "").
+Definition hdr_inv_okb (h : hdr_perm) (q : request) : bool :=
+  negb (h_invert h && is_value_matcher h)
+  || match header_lookup (h_name h) q with Some _ => true | None => false end.
+Definition inv_ok (p : ixn_perm) (q : request) : Prop :=
+  match ip_http p with Some h => Forall (fun hd => hdr_inv_okb hd q = true) (hp_header h) | None => True end.
+
 Definition methods_ok (p : ixn_perm) : Prop :=
   match ip_http p with Some h => Forall valid_method (hp_methods h) | None => True end.
 
@@ -29,50 +41,52 @@ Section Perms.
   Qed.
 
   Lemma convert_header_sem q h :
+    hdr_inv_okb h q = true ->
     match convert_header h with Some p => eval_perm re q p | None => true end = hdr_matches re h q.
   Proof.
-    unfold convert_header, hdr_matches.
-    destruct (h_exact h =? ""); cbn [negb].
-    2:{ cbn. unfold eval_header. destruct (header_lookup (h_name h) q); [|reflexivity].
-        cbn. destruct (h_ignore_case h); reflexivity. }
-    destruct (h_regex h =? ""); cbn [negb].
-    2:{ cbn. unfold eval_header. destruct (header_lookup (h_name h) q); reflexivity. }
-    destruct (h_prefix h =? ""); cbn [negb].
-    2:{ cbn. unfold eval_header. destruct (header_lookup (h_name h) q); [|reflexivity].
-        cbn. destruct (h_ignore_case h); reflexivity. }
-    destruct (h_suffix h =? ""); cbn [negb].
-    2:{ cbn. unfold eval_header. destruct (header_lookup (h_name h) q); [|reflexivity].
-        cbn. destruct (h_ignore_case h); reflexivity. }
-    destruct (h_contains h =? ""); cbn [negb].
-    2:{ cbn. unfold eval_header. destruct (header_lookup (h_name h) q); [|reflexivity].
-        cbn. destruct (h_ignore_case h); reflexivity. }
-    destruct (h_present h).
-    - cbn. unfold eval_header. destruct (header_lookup (h_name h) q); reflexivity.
-    - reflexivity.
+    unfold convert_header, hdr_matches, hdr_inv_okb, is_value_matcher. intros H.
+    destruct (header_lookup (h_name h) q) as [v|] eqn:L.
+    - clear H.
+      repeat match goal with
+             | |- context [negb (?x =? "")] => destruct (x =? ""); cbn [negb]
+             end;
+        try (destruct (h_present h));
+        cbn [eval_perm]; unfold eval_header; rewrite ?L; cbn [eval_sm];
+        try (destruct (h_ignore_case h)); reflexivity.
+    - cbn [orb] in H. rewrite orb_false_r in H.
+      destruct (h_invert h); cbn [andb negb] in H;
+        repeat match goal with
+               | _ : context [negb (?x =? "")] |- _ => destruct (x =? ""); cbn [negb orb] in *
+               | |- context [negb (?x =? "")] => destruct (x =? ""); cbn [negb]
+               end;
+        try discriminate;
+        try (destruct (h_present h));
+        cbn [eval_perm]; unfold eval_header; rewrite ?L; reflexivity.
   Qed.
 
   Lemma convert_headers_sem q hs :
+    Forall (fun h => hdr_inv_okb h q = true) hs ->
     forallb (eval_perm re q) (filter_map convert_header hs) = forallb (fun h => hdr_matches re h q) hs.
   Proof.
-    induction hs as [|h hs IH]; cbn [filter_map forallb]; [reflexivity|].
-    rewrite <- (convert_header_sem q h). destruct (convert_header h); cbn [forallb]; rewrite IH; reflexivity.
+    induction 1 as [|h hs Hh _ IH]; cbn [filter_map forallb]; [reflexivity|].
+    rewrite <- (convert_header_sem q h Hh). destruct (convert_header h); cbn [forallb]; rewrite IH; reflexivity.
   Qed.
 
   Lemma convert_permission_sem q p :
-    methods_ok p -> eval_perm re q (convert_permission p) = ixn_perm_matches re p q.
+    methods_ok p -> inv_ok p q -> eval_perm re q (convert_permission p) = ixn_perm_matches re p q.
   Proof.
-    unfold methods_ok, convert_permission, ixn_perm_matches.
+    unfold methods_ok, inv_ok, convert_permission, ixn_perm_matches.
     destruct (ip_http p) as [h|]; [|reflexivity].
-    intros Hm. rewrite eval_and_permissions, !forallb_app, convert_headers_sem.
+    intros Hm Hi. rewrite eval_and_permissions, !forallb_app, (convert_headers_sem q _ Hi).
     unfold http_perm_matches. rewrite andb_assoc. f_equal; [f_equal|].
     - destruct (hp_path_exact h =? ""); cbn [negb]; [|cbn; rewrite andb_true_r; reflexivity].
       destruct (hp_path_prefix h =? ""); cbn [negb]; [|cbn; rewrite andb_true_r; reflexivity].
       destruct (hp_path_regex h =? ""); cbn [negb]; [|cbn; rewrite andb_true_r; reflexivity].
       reflexivity.
     - destruct (hp_methods h) as [|m ms] eqn:E; [reflexivity|].
-      cbn [forallb eval_perm]. rewrite andb_true_r. unfold eval_header. rewrite xorb_false_l.
+      cbn [forallb eval_perm]. rewrite andb_true_r. unfold eval_header.
       destruct (header_lookup ":method" q) as [v|]; [|reflexivity].
-      cbn [eval_sm]. apply re_methods; [discriminate|exact Hm].
+      rewrite xorb_false_l. cbn [eval_sm]. apply re_methods; [discriminate|exact Hm].
   Qed.
 
   (* ---------------------------------------------------------------- removePermissionPrecedence *)
